@@ -635,9 +635,17 @@ func staticCallee(c *ssa.CallCommon) *ssa.Function {
 		return nil
 	}
 	f, _ := c.Value.(*ssa.Function)
-	if f == nil && elemBind != nil {
-		// the current element of an unrolled loop over a constant collection of functions
+	if f == nil && (elemBind != nil || currentValueParams != nil) {
+		// the current element of an unrolled loop over a constant collection of functions, or a function-valued
+		// parameter bound at the call being summarised
 		v := boundElem(c.Value)
+		for i := 0; i < 6 && currentValueParams != nil; i++ {
+			w, ok := currentValueParams[v]
+			if !ok {
+				break
+			}
+			v = boundElem(w)
+		}
 		for {
 			if ct, ok := v.(*ssa.ChangeType); ok {
 				v = ct.X
@@ -793,6 +801,15 @@ func (s *Summarizer) callForm(call *ssa.Call, env termEnv) *Form {
 		}
 		return atom(&LAtom{Kind: "containsAny", Set: set, Term: t, Desc: fmt.Sprintf("ContainsFunc(%s,%s)", termStr(t), set)})
 	}
+	// pred(s[len(s)-1]) with a pure byte predicate of the repository
+	if len(c.Args) == 1 && f.Blocks != nil && f.Pkg != nil && strings.HasPrefix(f.Pkg.Pkg.Path(), modulePath) {
+		if t, ok := s.lastByteOf(c.Args[0], env); ok {
+			if set, ok := predicateSet(f, false); ok {
+				return atom(&LAtom{Kind: "tail", Set2: set, Term: t, Desc: fmt.Sprintf("last(%s)∈%s", termStr(t), set)})
+			}
+			return fUnknown("byte predicate " + name + " is not a function of the byte alone (or treats bytes ≥ 0x80 unevenly)")
+		}
+	}
 	// pred(s[0]) with a pure byte predicate of the repository
 	if len(c.Args) == 1 && f.Blocks != nil && f.Pkg != nil && strings.HasPrefix(f.Pkg.Pkg.Path(), modulePath) {
 		if t, ok := s.firstByteOf(c.Args[0], env); ok {
@@ -875,6 +892,16 @@ func termStr(t Term) string {
 
 // indexCmp recognises strings.Index*(term, const) compared with -1 / 0.
 func (s *Summarizer) indexCmp(x *ssa.BinOp, env termEnv) *Form {
+	return s.indexCmpParts(x.Op, x.X, x.Y, env, 0)
+}
+
+// indexCmpParts: the comparison "X op Y" where X is an index into a term (strings.Index*, or the integer result
+// of a helper of the repository that returns such indices) and Y a constant.
+func (s *Summarizer) indexCmpParts(op token.Token, X, Y ssa.Value, env termEnv, depth int) *Form {
+	x := struct {
+		Op   token.Token
+		X, Y ssa.Value
+	}{op, X, Y}
 	call, ok := x.X.(*ssa.Call)
 	if !ok {
 		return nil
@@ -888,7 +915,60 @@ func (s *Summarizer) indexCmp(x *ssa.BinOp, env termEnv) *Form {
 	switch name {
 	case "strings.IndexAny", "strings.Index", "strings.IndexByte", "strings.IndexRune", "strings.LastIndex", "strings.LastIndexAny", "strings.LastIndexByte", "strings.IndexFunc", "strings.LastIndexFunc":
 	default:
-		return nil
+		// an index computed by a helper: over its returns
+		if _, isConst := constInt(Y); !isConst || depth > 2 || f.Blocks == nil || f.Pkg == nil || !strings.HasPrefix(f.Pkg.Pkg.Path(), modulePath) || f.Signature.Results().Len() != 1 {
+			return nil
+		}
+		if b, ok := f.Signature.Results().At(0).Type().Underlying().(*types.Basic); !ok || b.Info()&types.IsInteger == 0 {
+			return nil
+		}
+		if hasLoop(f) {
+			return nil
+		}
+		g, env2, ok := s.repoCallee(call, env)
+		if !ok {
+			return nil
+		}
+		var alts []*Form
+		for _, ret := range Returns(g) {
+			rv := ret.Results[0]
+			var vf *Form
+			if k, isK := constInt(rv); isK {
+				yk, _ := constInt(Y)
+				res := false
+				switch op {
+				case token.EQL:
+					res = k == yk
+				case token.NEQ:
+					res = k != yk
+				case token.LSS:
+					res = k < yk
+				case token.LEQ:
+					res = k <= yk
+				case token.GTR:
+					res = k > yk
+				case token.GEQ:
+					res = k >= yk
+				default:
+					return nil
+				}
+				if res {
+					vf = fTrue()
+				} else {
+					vf = fFalse()
+				}
+			} else {
+				vf = s.indexCmpParts(op, rv, Y, env2, depth+1)
+				if vf == nil {
+					return nil
+				}
+			}
+			alts = append(alts, fAnd(s.blockCond(ret.Block(), env2, fnName(g)+" return"), vf))
+		}
+		if len(alts) == 0 {
+			return nil
+		}
+		return fOr(alts...)
 	}
 	t, ok := s.termOf(call.Common().Args[0], env)
 	if !ok {
@@ -933,7 +1013,7 @@ func (s *Summarizer) indexCmp(x *ssa.BinOp, env termEnv) *Form {
 	case x.Op == token.EQL && k == -1, x.Op == token.LSS && k == 0, x.Op == token.LEQ && k == -1:
 		return fNot(atom(a))
 	}
-	return fUnknown("index comparison " + x.String())
+	return fUnknown("index comparison " + x.Op.String())
 }
 
 func (s *Summarizer) binopForm(x *ssa.BinOp, env termEnv) *Form {
@@ -1231,6 +1311,10 @@ func (s *Summarizer) lenCmp(x *ssa.BinOp, env termEnv) *Form {
 				return nonEmpty(t)
 			case x.Op == token.LSS && k == 1, x.Op == token.LEQ && k == 0:
 				return fNot(nonEmpty(t))
+			case x.Op == token.GEQ && k == 2, x.Op == token.GTR && k == 1:
+				return atom(&LAtom{Kind: "minlen2", Term: t, Desc: fmt.Sprintf("len(%s)>=2", termStr(t))})
+			case x.Op == token.LSS && k == 2, x.Op == token.LEQ && k == 1:
+				return fNot(atom(&LAtom{Kind: "minlen2", Term: t, Desc: fmt.Sprintf("len(%s)>=2", termStr(t))}))
 			}
 		}
 	}
@@ -1569,7 +1653,14 @@ func (s *Summarizer) NilResultForm(f *ssa.Function, idx int, env termEnv) *Form 
 		if nonNil {
 			continue
 		}
-		alts = append(alts, s.blockCond(ret.Block(), env, fnName(f)+" nil-result return"))
+		cond := s.blockCond(ret.Block(), env, fnName(f)+" nil-result return")
+		// the error of a helper handed on: nil exactly when the helper's is
+		if call, ok := unIface(v).(*ssa.Call); ok {
+			if g, env2, ok := s.repoCallee(call, env); ok && g != f && g.Signature.Results().Len() == 1 && isErrorType(g.Signature.Results().At(0).Type()) {
+				cond = fAnd(cond, s.NilResultForm(g, 0, env2))
+			}
+		}
+		alts = append(alts, cond)
 	}
 	if len(alts) == 0 {
 		return fOver(fFalse())
@@ -1728,6 +1819,15 @@ func (l *Lang) Register(f *Form) error {
 			l.AddSet(a.Set)
 			l.AddSet(a.Set2)
 			l.AddSet(relang.NewSet(0, 0x7F))
+		case "tail", "minlen2":
+			if a.Set != nil {
+				l.AddSet(a.Set)
+			}
+			if a.Set2 != nil {
+				l.AddSet(a.Set2)
+			}
+			l.AddSet(relang.NewSet(0, 0x7F))
+			l.AddSet(relang.NewSet(relang.INV, relang.INV))
 		case "contains", "hasprefix", "hassuffix", "eq":
 			l.AddString(a.Str)
 		}
@@ -1807,6 +1907,41 @@ func (l *Lang) Eval(f *Form) (*relang.DFA, []string, error) {
 			d = relang.ContainsSym(l.A, a.Set)
 		case "scan":
 			d = scanDFA(l.A, a.N, a.Set, a.Set2, a.End, false).Minimize()
+		case "tail":
+			// the last byte (Set2) and, if given, the byte before it (Set, ASCII only; the last byte is then a symbol
+			// of its own: an ASCII character or an invalid byte)
+			one := func(set *relang.Set) *relang.DFA {
+				return relang.FromFunc(l.A, 3, 0, func(q int) bool { return q == 1 }, func(q int, sym int32) int {
+					if q == 0 && set.Contains(sym) {
+						return 1
+					}
+					return 2
+				})
+			}
+			last := a.Set2
+			if a.Set != nil {
+				single := relang.NewSet(0, 0x7F).Union(relang.NewSet(relang.INV, relang.INV))
+				if last == nil {
+					last = single
+				} else {
+					last = last.Intersect(single)
+				}
+				d = relang.Concat(relang.Concat(l.All(), one(a.Set)), one(last)).Minimize()
+			} else {
+				d = relang.Concat(l.All(), one(last)).Minimize()
+			}
+		case "minlen2":
+			// at least two bytes: two symbols or more, or one character that is encoded in several bytes
+			any := relang.NewSet(0, relang.INV)
+			one := func(set *relang.Set) *relang.DFA {
+				return relang.FromFunc(l.A, 3, 0, func(q int) bool { return q == 1 }, func(q int, sym int32) int {
+					if q == 0 && set.Contains(sym) {
+						return 1
+					}
+					return 2
+				})
+			}
+			d = relang.Union(relang.Concat(relang.Concat(one(any), one(any)), l.All()), one(relang.NewSet(0x80, relang.INV-1))).Minimize()
 		case "contains":
 			d = l.search(l.quoteRe(a.Str))
 		case "hasprefix":
@@ -2155,6 +2290,33 @@ func (s *Summarizer) firstByteOf(v ssa.Value, env termEnv) (Term, bool) {
 	return s.termOf(base, env)
 }
 
+// lastByteOf: v is term[len(term)-1].
+func (s *Summarizer) lastByteOf(v ssa.Value, env termEnv) (Term, bool) {
+	if c, ok := v.(*ssa.Convert); ok {
+		v = c.X
+	}
+	var base, idx ssa.Value
+	switch x := v.(type) {
+	case *ssa.Index:
+		base, idx = x.X, x.Index
+	case *ssa.Lookup:
+		base, idx = x.X, x.Index
+	default:
+		return Term{}, false
+	}
+	bo, ok := idx.(*ssa.BinOp)
+	if !ok || bo.Op != token.SUB || !isStringish(base.Type()) {
+		return Term{}, false
+	}
+	if sv, ok := isLenOf(bo.X); !ok || sv != base {
+		return Term{}, false
+	}
+	if k, ok := constIntExpr(bo.Y); !ok || k != 1 {
+		return Term{}, false
+	}
+	return s.termOf(base, env)
+}
+
 // firstSymAtom: "the string is non-empty and its first symbol is in set" (set over code points).
 func firstSymAtom(t Term, set *relang.Set) *Form {
 	return atom(&LAtom{Kind: "scan", Term: t, N: 0, Set: set, Set2: set.Complement(), End: false, Desc: fmt.Sprintf("first(%s)∈%s", termStr(t), set)})
@@ -2401,7 +2563,12 @@ func (s *Summarizer) bindValue(prm *ssa.Parameter, arg ssa.Value) {
 		s.ValueParams = map[ssa.Value]ssa.Value{}
 	}
 	s.ValueParams[prm] = s.resolveValue(arg)
+	currentValueParams = s.ValueParams
 }
+
+// currentValueParams: the value bindings of the summariser at work (consulted where no summariser is at hand:
+// the resolution of calls through function-valued parameters).
+var currentValueParams map[ssa.Value]ssa.Value
 
 // strEqConst: the condition "v == k" for a string value v (a constant, a submatch element, a term).
 func (s *Summarizer) strEqConst(v ssa.Value, k string, env termEnv) *Form {
@@ -2506,7 +2673,8 @@ func (s *Summarizer) lastByteCmp(x *ssa.BinOp, env termEnv) *Form {
 	if sv, ok := isLenOf(bo.X); !ok || sv != base {
 		return nil
 	}
-	if k, ok := constIntExpr(bo.Y); !ok || k != 1 {
+	back, ok := constIntExpr(bo.Y)
+	if !ok || (back != 1 && back != 2) {
 		return nil
 	}
 	if !isStringish(base.Type()) {
@@ -2521,6 +2689,9 @@ func (s *Summarizer) lastByteCmp(x *ssa.BinOp, env termEnv) *Form {
 		return nil
 	}
 	f := atom(&LAtom{Kind: "hassuffix", Str: string(rune(k)), Term: t, Desc: fmt.Sprintf("HasSuffix(%s,%q)", termStr(t), string(rune(k)))})
+	if back == 2 {
+		f = atom(&LAtom{Kind: "tail", Set: relang.SetOfRunes(rune(k)), Term: t, Desc: fmt.Sprintf("byte[len-2](%s)==%q", termStr(t), rune(k))})
+	}
 	if x.Op == token.NEQ {
 		return fNot(f)
 	}
